@@ -15,7 +15,7 @@ namespace Unc
     runs included) the implementation agrees with the reference model of the protocol:
     the backup holds `g` — the content the file had before the earliest run since the last user
     edit — and the md5 file describes the content uncrustify last left in the file. -/
-theorem C14_backup_invariant (F : Nat → Bytes → Bytes) (h : Bytes → Bytes) :
+theorem C14_backup_invariant (F : Nat → FBytes → FBytes) (h : FBytes → FBytes) :
     ∀ (ops : List HistOp) (s : FS) (sp : Spec), BackupInv h s sp → InjOn h (occurring F sp ops) →
       BackupInv h (runHist Fix.fixed F h s ops) (specHist F sp ops) := by
   intro ops
@@ -26,7 +26,7 @@ theorem C14_backup_invariant (F : Nat → Bytes → Bytes) (h : Bytes → Bytes)
     exact ih _ _ (inv_step F h s sp op hinv (injOn_head hi)) (injOn_tail hi)
 
 /-- the same, starting from a file uncrustify never touched -/
-theorem C14_backup_invariant_fresh (F : Nat → Bytes → Bytes) (h : Bytes → Bytes) (c : Bytes) (ops : List HistOp)
+theorem C14_backup_invariant_fresh (F : Nat → FBytes → FBytes) (h : FBytes → FBytes) (c : FBytes) (ops : List HistOp)
     (hi : InjOn h (occurring F (Spec.fresh c) ops)) :
     BackupInv h (runHist Fix.fixed F h (FS.fresh c) ops) (specHist F (Spec.fresh c) ops) :=
   C14_backup_invariant F h ops _ _ ⟨rfl, rfl, rfl⟩ hi
@@ -41,7 +41,7 @@ example : specHist (fun cfg c => if cfg = 2 then c else cfg :: c) (Spec.fresh [1
 
 /-- Running uncrustify again never overwrites the backup: a run that directly follows a run leaves
     the backup file exactly as it was (equal or different configurations, no-op runs). -/
-theorem C14_run_run_keeps_backup (F : Nat → Bytes → Bytes) (h : Bytes → Bytes) (ops : List HistOp) (a b : Nat)
+theorem C14_run_run_keeps_backup (F : Nat → FBytes → FBytes) (h : FBytes → FBytes) (ops : List HistOp) (a b : Nat)
     (s : FS) (sp : Spec) (hinv : BackupInv h s sp)
     (hi : InjOn h (occurring F sp (ops ++ [.run a, .run b]))) :
     (runHist Fix.fixed F h s (ops ++ [.run a, .run b])).bak = (runHist Fix.fixed F h s (ops ++ [.run a])).bak := by
@@ -75,7 +75,7 @@ example : BackupInv id (FS.fresh [1]) (Spec.fresh [1])
     `[UserWrite u, Run A, Run A]` leaves uncrustify's own output in the backup; the user's text `u`
     is gone.  (`u = [1]`, `A` prepends a `0` unless already there, `h = id`.) -/
 theorem C14_backup_overwritten_witness_before_fix :
-    ∃ (F : Nat → Bytes → Bytes) (h : Bytes → Bytes) (u : Bytes),
+    ∃ (F : Nat → FBytes → FBytes) (h : FBytes → FBytes) (u : FBytes),
       (∀ a b, h a = h b → a = b) ∧ F 0 (F 0 u) = F 0 u ∧
       (runHist ⟨false, true⟩ F h (FS.fresh [9]) [.userWrite u, .run 0, .run 0]).bak = some (F 0 u) ∧
       F 0 u ≠ u ∧
@@ -91,7 +91,7 @@ theorem C14_backup_overwritten_witness_before_fix :
     PARTIAL: the full statement ("for a run killed at ANY file operation") is false — see the two
     witnesses below; the protocol keeps its state in two/three files that cannot be updated
     atomically. -/
-theorem C14_crash_partial (F : Nat → Bytes → Bytes) (h : Bytes → Bytes) :
+theorem C14_crash_partial (F : Nat → FBytes → FBytes) (h : FBytes → FBytes) :
     ∀ (ops : List KOp) (s s' : FS) (sp : Spec), BackupInv h s sp → InjOn h (koccurring F sp ops) →
       KRun Fix.fixed F h s ops s' → BackupInv h s' (kspecHist F sp ops) := by
   intro ops
@@ -131,7 +131,7 @@ example : KStep Fix.fixed (fun _ c => 0 :: c) id (FS.fresh [1]) (.runKilledAfter
     The kill leaves B's output in the file while the md5 file still describes A's output, so the
     next run takes the file for a user edit and overwrites the backup: `u` is lost. -/
 theorem C14_crash_window_witness :
-    ∃ (F : Nat → Bytes → Bytes) (h : Bytes → Bytes) (u : Bytes) (s1 s2 : FS) (cs : List Sys),
+    ∃ (F : Nat → FBytes → FBytes) (h : FBytes → FBytes) (u : FBytes) (s1 s2 : FS) (cs : List Sys),
       (∀ a b, h a = h b → a = b) ∧
       s1 = runHist Fix.fixed F h (FS.fresh u) [.run 0] ∧
       CrashAt s1 [] (runProg Fix.fixed F h 1) (s2, cs) ∧ inMd5Window cs ∧
@@ -146,7 +146,7 @@ theorem C14_crash_window_witness :
     and writing the backup]` leaves an EMPTY backup: the old backup `u` is destroyed, the new one
     (`x`) not yet there.  (The file itself still holds `x`.) -/
 theorem C14_torn_backup_witness :
-    ∃ (F : Nat → Bytes → Bytes) (h : Bytes → Bytes) (u x : Bytes) (s1 s2 : FS) (cs : List Sys),
+    ∃ (F : Nat → FBytes → FBytes) (h : FBytes → FBytes) (u x : FBytes) (s1 s2 : FS) (cs : List Sys),
       (∀ a b, h a = h b → a = b) ∧
       s1 = runHist Fix.fixed F h (FS.fresh u) [.run 0, .userWrite x] ∧
       CrashAt s1 [] (runProg Fix.fixed F h 0) (s2, cs) ∧ inBackupWindow cs ∧
